@@ -79,11 +79,12 @@ type wctx struct {
 	cacheDir  string
 	ts        *mocks.TrustStore
 	envV      map[string]bothVerifier
+	matrixV   map[string]cachedVerifier
 	layoutSeq int
 }
 
 func newWctx(fx *Fixture, scratch string) (*wctx, error) {
-	x := &wctx{fx: fx, dir: scratch, envV: map[string]bothVerifier{}}
+	x := &wctx{fx: fx, dir: scratch, envV: map[string]bothVerifier{}, matrixV: map[string]cachedVerifier{}}
 	x.cfgDir = filepath.Join(scratch, "config")
 	x.emptyDir = filepath.Join(scratch, "empty-plugins")
 	x.plugRoot = filepath.Join(scratch, "plugins")
@@ -175,6 +176,8 @@ func panicKey(c *Case, stage string) string {
 	case "config-matrix":
 		t := c.Matrix
 		return "panic/config-matrix:" + stage + ":" + t.Cons + ":" + t.Level + "@" + t.Place
+	case "reader-seam":
+		return "panic/reader-seam:" + c.Kind
 	case "nil-arguments":
 		return "panic/nil-arguments:" + c.Label
 	case "envelope-byte-mutation":
@@ -199,8 +202,8 @@ func panicKey(c *Case, stage string) string {
 
 func allocKey(c *Case) string {
 	switch c.Family {
-	case "config-matrix":
-		return "runaway-allocation:config-matrix"
+	case "config-matrix", "reader-seam":
+		return "runaway-allocation:" + c.Family
 	case "nil-arguments":
 		return "runaway-allocation:nil-arguments:" + c.Label
 	case "envelope-byte-mutation", "crl-der-byte-mutation", "document-byte-mutation", "oci-layout-byte-mutation":
@@ -382,13 +385,11 @@ func (x *wctx) matrixOptions(t *Tuple) verifier.VerifierOptions {
 }
 
 func (x *wctx) matrixSig(t *Tuple, kind string) ([]byte, string) {
-	name := func(f string) []byte {
-		k := kind + "/" + f
-		if t.Plug {
-			k += "+plugin"
-		}
-		return x.fx.Sigs[k]
+	at := t.Attr
+	if at == "" {
+		at = "none"
 	}
+	name := func(f string) []byte { return x.fx.Sigs[matrixSigName(kind, f, t.Plug, at)] }
 	switch t.Sig {
 	case "jws":
 		return name("jws"), mtJWS
@@ -406,64 +407,87 @@ func (x *wctx) matrixSig(t *Tuple, kind string) ([]byte, string) {
 	return nil, mtJWS
 }
 
-func (x *wctx) runMatrix(c *Case, res *Result) {
-	t := c.Matrix
-	pre := "config-matrix:" + t.Entry + ":" + t.Level + ":"
-	var v bothVerifier
-	var cerr error
+type cachedVerifier struct {
+	v   bothVerifier
+	err error
+}
+
+// matrixVerifier constructs the verifier of a cell inside a protected call; one instance per configuration is
+// kept per worker, so most cells run on an instance that has already served other calls (a history on one instance).
+func (x *wctx) matrixVerifier(res *Result, c *Case, t *Tuple) (bothVerifier, error, bool) {
+	key := t.Cons + "/" + t.PM + "/" + t.Rev + "/" + t.Level + "/" + t.Place
+	if cv, ok := x.matrixV[key]; ok {
+		return cv.v, cv.err, false
+	}
+	var cv cachedVerifier
 	if x.call(res, c, "verifier.NewVerifierWithOptions", func(*string) {
 		vv, err := verifier.NewVerifierWithOptions(x.ts, x.matrixOptions(t))
 		if err != nil {
-			cerr = err
+			cv.err = err
 			_ = err.Error()
 			return
 		}
-		v = vv
+		cv.v = vv
 	}) {
-		return
+		return nil, nil, true
 	}
-	if cerr != nil {
-		res.class("config-matrix:construction-refused(%s@%s)", t.Level, t.Place)
-		return
+	x.matrixV[key] = cv
+	return cv.v, cv.err, false
+}
+
+func metadataOf(t *Tuple) map[string]string {
+	switch t.Meta {
+	case "satisfied":
+		return map[string]string{"k": "v"}
+	case "unsatisfied":
+		return map[string]string{"k": "something else"}
 	}
-	res.Nontrivial = true
-	control := t.Cons == "both" && t.Level == "strict" && t.Sig == "jws" && !t.Plug && (t.Ref == "digest" || t.Ref == "")
+	return nil
+}
+
+// matrixCall runs the entry point of a cell and returns the outcome class.
+func (x *wctx) matrixCall(res *Result, c *Case, t *Tuple, v bothVerifier, blobReader func([]byte) io.Reader) string {
 	var class string
-	ref := refRepo + "@" + x.fx.Desc.Digest.String()
+	desc, blob := x.fx.Desc, x.fx.Blob
+	if t.Artifact == "mismatching" {
+		desc, blob = x.fx.OtherDesc, x.fx.OtherBlob
+	}
+	ref := refRepo + "@" + desc.Digest.String()
 	switch t.Ref {
 	case "tag":
 		ref = refRepo + ":" + refTag
 	case "out-of-scope":
-		ref = "other.example/x@" + x.fx.Desc.Digest.String()
+		ref = "other.example/x@" + desc.Digest.String()
 	}
 	name := "p"
 	if t.Place == "blob-global" {
 		name = ""
 	}
+	meta := metadataOf(t)
 	switch t.Entry {
 	case "verifier.Verify":
 		sig, mt := x.matrixSig(t, "oci")
 		x.call(res, c, t.Entry, func(stage *string) {
-			o, err := v.Verify(ctx, x.fx.Desc, sig, notation.VerifierVerifyOptions{ArtifactReference: ref, SignatureMediaType: mt})
+			o, err := v.Verify(ctx, desc, sig, notation.VerifierVerifyOptions{ArtifactReference: ref, SignatureMediaType: mt, UserMetadata: meta})
 			touchOutcome(o, stage)
 			class = judgeVerifier(res, t.Entry, c, o, err)
 		})
 	case "verifier.VerifyBlob":
 		sig, mt := x.matrixSig(t, "blob")
 		x.call(res, c, t.Entry, func(stage *string) {
-			o, err := v.VerifyBlob(ctx, blobDescGen(x.fx.Blob), sig, notation.BlobVerifierVerifyOptions{SignatureMediaType: mt, TrustPolicyName: name})
+			o, err := v.VerifyBlob(ctx, blobDescGen(blob), sig, notation.BlobVerifierVerifyOptions{SignatureMediaType: mt, TrustPolicyName: name, UserMetadata: meta})
 			touchOutcome(o, stage)
 			class = judgeVerifier(res, t.Entry, c, o, err)
 		})
 	case "notation.Verify":
 		sig, mt := x.matrixSig(t, "oci")
 		x.call(res, c, t.Entry, func(stage *string) {
-			class = x.judgeNotationVerify(res, c, stage, v, &mockRepo{desc: x.fx.Desc, sig: sig, mt: mt}, ref)
+			class = x.judgeNotationVerifyMeta(res, c, stage, v, &mockRepo{desc: desc, sig: sig, mt: mt}, ref, meta)
 		})
 	case "notation.VerifyBlob":
 		sig, mt := x.matrixSig(t, "blob")
 		x.call(res, c, t.Entry, func(stage *string) {
-			_, o, err := notation.VerifyBlob(ctx, v, bytes.NewReader(x.fx.Blob), sig, notation.VerifyBlobOptions{BlobVerifierVerifyOptions: notation.BlobVerifierVerifyOptions{SignatureMediaType: mt, TrustPolicyName: name}})
+			_, o, err := notation.VerifyBlob(ctx, v, blobReader(blob), sig, notation.VerifyBlobOptions{BlobVerifierVerifyOptions: notation.BlobVerifierVerifyOptions{SignatureMediaType: mt, TrustPolicyName: name, UserMetadata: meta}})
 			touchOutcome(o, stage)
 			class = judgeNotationVerifyBlob(res, c, o, err)
 			if err == nil && (t.Sig == "empty" || t.Sig == "nil") {
@@ -476,8 +500,45 @@ func (x *wctx) runMatrix(c *Case, res *Result) {
 	if class == "" {
 		class = "panicked"
 	}
+	return class
+}
+
+func wholeReader(b []byte) io.Reader { return bytes.NewReader(b) }
+
+func coarse(class string) string {
+	if i := strings.IndexAny(class, ":("); i > 0 {
+		return class[:i]
+	}
+	return class
+}
+
+func (x *wctx) runMatrix(c *Case, res *Result) {
+	t := c.Matrix
+	pre := "config-matrix:" + t.Entry + ":" + t.Level + ":"
+	v, cerr, panicked := x.matrixVerifier(res, c, t)
+	if panicked {
+		return
+	}
+	if cerr != nil {
+		res.class("config-matrix:construction-refused(%s@%s)", t.Level, t.Place)
+		return
+	}
+	res.Nontrivial = true
+	class := x.matrixCall(res, c, t, v, wholeReader)
 	res.class("%s%s", pre, class)
-	if control {
+	if t.Attr != "none" || t.Artifact != "matching" || t.Meta != "none" {
+		kind := "oci"
+		if t.Ref == "" {
+			kind = "blob"
+		}
+		if t.Attr != "none" {
+			res.class("config-matrix/extended-attribute:%s,plugin-demanded=%v,scripted-manager=%v:%s", t.Attr, t.Plug, t.PM == "scripted", coarse(class))
+		}
+		if t.Artifact != "matching" || t.Meta != "none" {
+			res.class("config-matrix/artifact-metadata:%s:artifact=%s,metadata=%s:%s", kind, t.Artifact, t.Meta, coarse(class))
+		}
+	}
+	if t.Cons == "both" && t.Level == "strict" && t.Sig == "jws" && !t.Plug && (t.Ref == "digest" || t.Ref == "") && t.Attr == "none" && t.Artifact == "matching" && t.Meta != "unsatisfied" {
 		res.Controls++
 		if class == "accepted" {
 			res.ControlsOK++
@@ -485,8 +546,98 @@ func (x *wctx) runMatrix(c *Case, res *Result) {
 	}
 }
 
+// ---------------------------------------------------------------------------
+// family: reader seam. The blob reaches notation.VerifyBlob through a caller-supplied io.Reader: however the
+// reader delivers the same bytes, the verdict must be the one of a plain reader; a failing reader must neither
+// crash the call nor break the consistency clause.
+
+type seamReader struct {
+	data []byte
+	kind string
+	pos  int
+}
+
+func (r *seamReader) Read(p []byte) (int, error) {
+	if len(p) == 0 {
+		return 0, nil
+	}
+	rest := r.data[r.pos:]
+	switch r.kind {
+	case "one-byte-at-a-time":
+		if len(rest) == 0 {
+			return 0, io.EOF
+		}
+		p[0] = rest[0]
+		r.pos++
+		return 1, nil
+	case "data-together-with-EOF":
+		if len(rest) == 0 {
+			return 0, io.EOF
+		}
+		n := copy(p, rest)
+		r.pos += n
+		if r.pos == len(r.data) {
+			return n, io.EOF
+		}
+		return n, nil
+	case "two-halves":
+		if len(rest) == 0 {
+			return 0, io.EOF
+		}
+		lim := len(rest)
+		if r.pos == 0 {
+			lim = len(r.data) / 2
+		}
+		n := copy(p, rest[:lim])
+		r.pos += n
+		return n, nil
+	case "failing-after-half":
+		if r.pos >= len(r.data)/2 {
+			return 0, errors.New("harness: reader fails after half of the data")
+		}
+		n := copy(p, r.data[r.pos:len(r.data)/2])
+		r.pos += n
+		return n, nil
+	case "failing-after-all-data":
+		if len(rest) == 0 {
+			return 0, errors.New("harness: reader fails instead of reporting EOF")
+		}
+		n := copy(p, rest)
+		r.pos += n
+		return n, nil
+	}
+	panic("unknown reader kind " + r.kind)
+}
+
+func (x *wctx) runReaderSeam(c *Case, res *Result) {
+	t := c.Matrix
+	v, cerr, panicked := x.matrixVerifier(res, c, t)
+	if panicked || cerr != nil {
+		res.viol("harness/reader-seam-verifier", "verifier for the reader seam could not be built: %v", cerr)
+		return
+	}
+	res.Nontrivial = true
+	plain := x.matrixCall(res, c, t, v, wholeReader)
+	seam := x.matrixCall(res, c, t, v, func(b []byte) io.Reader { return &seamReader{data: b, kind: c.Kind} })
+	failing := strings.HasPrefix(c.Kind, "failing")
+	switch {
+	case !failing && seam != plain:
+		res.viol("reader-seam/verdict-depends-on-delivery:"+c.Kind, "notation.VerifyBlob: %q with a plain reader, %q with a reader delivering the same bytes %s | case: %s", plain, seam, c.Kind, c.describe())
+		res.class("reader-seam:%s:violation", c.Kind)
+	case failing && t.Level != "skip" && (seam == "accepted") && c.Kind == "failing-after-half":
+		res.viol("reader-seam/accepted-with-truncated-blob", "notation.VerifyBlob accepted although the reader failed after half of the blob | case: %s", c.describe())
+		res.class("reader-seam:%s:violation", c.Kind)
+	default:
+		res.class("reader-seam:%s:%s:plain=%s,seam=%s", c.Kind, t.Level, coarse(plain), coarse(seam))
+	}
+}
+
 func (x *wctx) judgeNotationVerify(res *Result, c *Case, stage *string, v notation.Verifier, repo registry.Repository, ref string) string {
-	_, outcomes, err := notation.Verify(ctx, v, repo, notation.VerifyOptions{ArtifactReference: ref, MaxSignatureAttempts: 3})
+	return x.judgeNotationVerifyMeta(res, c, stage, v, repo, ref, nil)
+}
+
+func (x *wctx) judgeNotationVerifyMeta(res *Result, c *Case, stage *string, v notation.Verifier, repo registry.Repository, ref string, meta map[string]string) string {
+	_, outcomes, err := notation.Verify(ctx, v, repo, notation.VerifyOptions{ArtifactReference: ref, MaxSignatureAttempts: 3, UserMetadata: meta})
 	for _, o := range outcomes {
 		touchOutcome(o, stage)
 	}
@@ -1479,6 +1630,8 @@ func (x *wctx) run(c *Case) (*Result, error) {
 	switch c.Family {
 	case "config-matrix":
 		x.runMatrix(c, res)
+	case "reader-seam":
+		x.runReaderSeam(c, res)
 	case "nil-arguments":
 		err = x.runNilArgs(c, res)
 	case "envelope-byte-mutation", "envelope-json-node":
